@@ -149,7 +149,35 @@ def main(tier):
                 g = M(("if", ("op", "gt", "f64", X, ("lit", "?k", "f64")), ("Ok", ("const", "_", "_")), "?loop"), it)
                 loop = g["?loop"] if g else it
                 ok = M(("seq", ("let", "?m", ("lit", "1.0", "f64")), ("for", ("bind", "?i"), ("rangei", ("lit", "2", "usize"), ("cast", "f64", "usize", X)), ("setop", "mul", "f64", ("var", "?m"), ("cast", "usize", "f64", ("var", "?i")))), ("Ok", ("var", "?m"))), loop) is not None
+        okneg = False
+        if a:
+            e = M(("if", ("op", "ge", "f64", X, ("lit", "0.0", "f64")), "_", ("if", ("op", "eq", "f64", ("op", "rem", "f64", X, ("lit", "1.0", "f64")), ("lit", "0.0", "f64")), "_", ("Ok", ("call", "Ast.gamma", ("op", "add", "f64", X, ("lit", "1.0", "f64")))))), a["term"])
+            okneg = e is not None
+        run.ob(okneg, "factorial-negative|eval_f64", "C10 x! for negative non-integer x is gamma(x+1)", "%s arm Factorial" % where(m, "::ast::eval"), T.show(a["term"])[:300] if a else "no arm")
         run.ob(ok, "factorial|eval_f64", "C10 x! : non-negative integers -> product 2*..*x; non-integers -> gamma(x+1)", "%s arm Factorial" % where(m, "::ast::eval"), T.show(a["term"])[:300] if a else "no arm")
+    if "eval_number" in models:
+        m = models["eval_number"]
+        r_, _ = chain.postfix_chain(m, "!")
+        if r_:
+            G = lambda x: "(Ok (| (F (call Ast.gamma (op add f64 %s (lit 1.0 f64)))) (N (call Ast.gamma (op add f64 %s (lit 1.0 f64))))))" % (x, x)
+            tF = T.alpha(canon(chain.peval(r_[1], {("ev", ("A0",)): FLT("a")})))
+            run.ob(M(G("(a)"), tF) is not None, "factorial|eval_number|F", "C10 eval_number: x! of a Float is gamma(x+1)", "%s arm Factorial" % where(m, "::ast::eval"), T.show(tF)[:200])
+            tI = T.alpha(canon(chain.peval(r_[1], {("ev", ("A0",)): INT("a")})))
+            eI = M(("if", "_", "_", "?else"), tI)
+            run.ob(eI is not None and M(G("(fa)"), eI["?else"]) is not None, "factorial|eval_number|I-large", "C10 eval_number: n! of an Integer outside 0..=20 is gamma(n+1) on its double value", "%s arm Factorial" % where(m, "::ast::eval"), T.show(tI)[:200])
+    if "eval_decimal" in models:
+        m = models["eval_decimal"]
+        r_, _ = chain.postfix_chain(m, "!")
+        a = m.tb.eval_arms().get(r_[0]) if r_ else None
+        okd = False
+        if a:
+            X = ("ev", ("C0",))
+            ONE = ("call", "Decimal::new", ("lit", "1", "i64"), ("lit", "0", "u32"))
+            GAM = ("lift", ("bindopt", ("call", "Decimal::checked_add", X, ONE), ("bind", "?v"), ("call", "Ast.gamma", ("var", "?v"))))
+            gs = [s_ for s_ in subterms(a["term"]) if M(GAM, s_) is not None]
+            allg = [s_ for s_ in subterms(a["term"]) if isinstance(s_, tuple) and len(s_) >= 2 and s_[0] == "call" and s_[1] == "Ast.gamma"]
+            okd = len(gs) == 2 and len(allg) == 2
+        run.ob(okd, "factorial|eval_decimal", "C10 eval_decimal: x! of a non-integer (positive or negative) is gamma(x+1)", "%s arm Factorial" % where(m, "::ast::eval"), T.show(a["term"])[:300] if a else "no arm")
     # sibling agreement of the hand-written numerics
     gam = {}
     for ev in ("eval_f64", "eval_number", "eval_decimal"):
@@ -185,6 +213,21 @@ def main(tier):
                 t = strip_num(canon(chain.peval(r[1], {("ev", ("A0",)): FLT("a")})))
                 t = T.alpha(chain.subst_sym(t, {("a",): ("ev", ("C0",))}))
                 run.ob(t == T.alpha(a[ctor]["term"]), "sibling|%s|f64-number" % ctor, "C10 eval_number's Lambert W is the f64 iteration on the operand's double value", "eval_number::ast::eval arm %s" % ctor, "terms differ")
+    # Lambert W and the iterated logarithm: the three copies are the same one-iteration state transformer
+    if all(e_ in models for e_ in ("eval_f64", "eval_number", "eval_decimal")):
+        from ..numsib import loop_step, compare
+        X_, B_ = ("ev", ("C0",)), ("ev", ("C1",))
+        for label, name, helper, roles in (("lambert_w", "w(", "lambert_w", {("param", "x"): ("X",)}), ("ilog", "ilog(", "ilog", {("param", "n"): ("X",), ("param", "b"): ("B",)})):
+            res_ = {}
+            for ev_ in ("eval_f64", "eval_number"):
+                r_, _ = chain.function_chain(models[ev_], name)
+                a_ = models[ev_].tb.eval_arms().get(r_[0]) if r_ else None
+                res_[ev_] = loop_step(a_["term"], {X_: ("X",), B_: ("B",)}) if a_ else None
+            ht = models["eval_decimal"].tb.helper_term(helper)
+            res_["eval_decimal"] = loop_step(ht, roles) if ht is not None else None
+            probs = compare(res_) if all(v is not None for v in res_.values()) else ["a copy has no recognisable loop: %s" % [k for k, v in res_.items() if v is None]]
+            run.ob(not probs, "sibling|%s" % label, "C10 the f64, Number and Decimal copies of %s are the same iteration (initial state, exit test, update, iteration cap) after type erasure" % label,
+                   "eval_f64 / eval_number / eval_decimal: %s" % label, "; ".join(probs)[:500], sample={"sibling": label, "update": T.show(res_["eval_f64"]["updates"])[:160] if res_.get("eval_f64") else None})
     report_issues(run, models, tables={"T_eval", "T_prim", "T_lex"})
     run.floor("evaluators analysed", len(models), 5)
     run.floor("obligations", run.obligations, 300)
